@@ -5,7 +5,7 @@ generate(outdir) writes shapes_NN.cpp translation units plus shapes.json (metada
 reference model needs: bounds, clause counts, file/line/text of every slot)."""
 import json, os, random, itertools, hashlib
 
-GEN_VERSION = 6
+GEN_VERSION = 7
 INF = -1
 
 LIMS = {
@@ -75,6 +75,8 @@ def valid(s):
         return False
     if s.get('vform') and s['mk'].startswith('ANY'):
         return False   # in the _V spelling the ANY(...) macro is expanded before it is stringified: the text differs
+    if s.get('vform') and s['lim'] == 'forbid' and s['nw'] > 0 and fn != 'v':
+        return False   # _V forbid with clauses only on void functions: a changed macro body then shows at run time, not as a build failure
     return True
 
 
@@ -155,7 +157,7 @@ def core_shapes():
     c.append(base(core='f_rt_s3', ns=3, nslots=2))
     # keep new core shapes at the end: ids of the earlier ones stay stable
     c.append(base(core='f_rt_v', vform=True, nslots=2))
-    c.append(base(core='f_forbid_v_w1', lim='forbid', act='none', nw=1, vform=True, nslots=2))
+    c.append(base(core='v_forbid_v_w1', fn='v', lim='forbid', act='none', nw=1, vform=True, nslots=2))
     c.append(base(core='f_allow_v_s1', lim='allow', ns=1, vform=True, nslots=2))
     c.append(base(core='v_forbid_v', fn='v', lim='forbid', act='none', vform=True, nslots=1))
     c.append(base(core='v_rt_s1', fn='v', act='none', ns=1, nslots=2))
